@@ -6,7 +6,9 @@ use crate::{
     crypto::{encrypt_block, hash_string, hash_type, het_hash, jenkins_hash},
     header::{FormatVersion, MpqHeaderV4Data},
     special_files::{AttributeFlags, Attributes, FileAttributes},
-    tables::{BetHeader, BlockEntry, BlockTable, HashEntry, HashTable, HetHeader, HiBlockTable},
+    tables::{
+        BetHeader, BlockEntry, BlockTable, HashEntry, HashTable, HetHeader, HetTable, HiBlockTable,
+    },
 };
 use md5::{Digest, Md5};
 use std::fs::{self};
@@ -1785,7 +1787,7 @@ impl ArchiveBuilder {
         let index_size = header.index_size;
 
         // Create hash table (8-bit name hashes)
-        let mut het_hash_table = vec![0xFFu8; hash_table_entries as usize]; // Initialize with 0xFF (empty)
+        let mut het_hash_table = vec![HetTable::ENTRY_FREE; hash_table_entries as usize];
 
         // Create file indices array
         let file_indices_size = (header.total_index_size as usize).div_ceil(8);
@@ -1821,8 +1823,8 @@ impl ArchiveBuilder {
             // Linear probing for collision resolution
             let mut current_index = start_index;
             loop {
-                // Check if slot is empty (0xFF)
-                if het_hash_table[current_index] == 0xFF {
+                // Check if slot is free
+                if het_hash_table[current_index] == HetTable::ENTRY_FREE {
                     // Store the 8-bit name hash
                     het_hash_table[current_index] = name_hash1;
 
@@ -1853,7 +1855,7 @@ impl ArchiveBuilder {
 
             let mut current_index = start_index;
             loop {
-                if het_hash_table[current_index] == 0xFF {
+                if het_hash_table[current_index] == HetTable::ENTRY_FREE {
                     het_hash_table[current_index] = name_hash1;
                     self.write_bit_entry(
                         &mut file_indices,
